@@ -46,6 +46,21 @@ def table_family():
         if isinstance(t, dict) and len(t) >= 2 and (name.startswith("2key") or ("=3,?=2" in name or "=4,?=8" in name)):
             items = list(t.items())
             fam.append((name + " [?-first]", dict([items[-1]] + items[:-1])))
+    # edit-distance-1 neighbourhood of valid keys (every ASCII character incl. control characters, and three non-ASCII ones,
+    # inserted at / replacing every position, every deletion): whatever the setter accepts must give a decodable alphabet
+    chars = [chr(c) for c in range(128)] + ["\u0661", "\u00b2", "\u2028"]
+    seen = set()
+    for seed in ("C", "Cl", "Fe+2", "N-1"):
+        cand = [seed[:i] + seed[i + 1:] for i in range(len(seed))]
+        for i in range(len(seed) + 1):
+            for ch in chars:
+                cand.append(seed[:i] + ch + seed[i:])
+                if i < len(seed):
+                    cand.append(seed[:i] + ch + seed[i + 1:])
+        for k in cand:
+            if k not in seen and k != "?":
+                seen.add(k)
+                fam.append(("nbr:%r" % k, {k: 2, "?": 3}))
     d = {"H": 1, "F": 1, "?": 8, "Sn+4": 3, "Se": 2, "O": 2, "N": 3, "Fe+2": 2}
     fam.append(("?-in-the-middle", d))
     fam.append(("only-?=0", {"?": 0}))
@@ -58,6 +73,7 @@ def plan(tier, seed):
     fam = table_family()
     L = 5 if thorough else 4
     tasks = [("tables", (i, L)) for i in range(len(fam))]
+    # (a task is one table; the key-neighbourhood tables are mostly rejected by the setter and cost next to nothing)
     scopes = [{"name": "tables", "tables": len(fam), "key_palette": KEYS, "capacities": CAPS, "default_capacities": QCAPS,
                "bound_whole_alphabet": 2, "bound_atoms_plus_structural": L, "structural_representatives": STRUCT}]
     return {"scopes": scopes, "tasks": tasks, "bounds": {"L": L}, "weight": lambda t: 1 if t[1][0] < 3 else 0}
@@ -155,6 +171,12 @@ def run(task):
         for k in list(mine):
             mine[k] = 0
         mine["Zn"] = 9
+    # ... and a rejected update (valid entries first, the offending one last) comes in between: still the same table in force
+    for bad in ({"?": 0, "C": 0, "N": 0, "O": 0, "Xx": 1}, {"C": 1, "N": 1, "?": -1}, {"H": 0}):
+        try:
+            _SF.set_semantic_constraints(bad)
+        except ValueError:
+            pass
     alpha = _SF.get_semantic_robust_alphabet()
     if set(alpha) != fresh:
         r.violation("alphabet-follows-the-callers-dict", case, "the caller changed the dict it had passed to the setter; "
@@ -189,6 +211,8 @@ def run(task):
         check("".join(w), "pair")
     # deeper over atoms + structural representatives (cap the sub-alphabet for the big presets)
     subL = L if len(sub) <= 12 else (L - 1 if len(sub) <= 30 else L - 2)
+    if name.startswith("nbr:"):
+        subL = 2        # neighbourhood tables: membership clauses, singles and pairs only
     for l in range(3, subL + 1):
         for w in itertools.product(sub, repeat=l):
             check("".join(w), "deep")
